@@ -1282,8 +1282,8 @@ def run(ctx: Ctx):
     henum = henum_cases(ctx.budget(3, 4))
     ctx.cov["exhaustive_small_scope_heap"] = dict(alphabet=len(HENUM_ALPHABET), max_len=ctx.budget(3, 4),
                                                   sequences=len(henum))
-    hfast = hcorpus + henum + [gen_hcase(rh) for _ in range(ctx.budget(320, 4000))]
-    hjit = hcorpus + [gen_hcase(rh) for _ in range(ctx.budget(24, 400))]
+    hfast = hcorpus + henum + [gen_hcase(rh) for _ in range(ctx.budget(320, 3000))]
+    hjit = hcorpus + [gen_hcase(rh) for _ in range(ctx.budget(24, 300))]
     # all implementation runs first, then ONE parallel evaluation of every case file inside Coq
     ph = ctx.cov.setdefault("phase_seconds", {})
     items, hitems = [], []
